@@ -49,6 +49,9 @@ type klaunch struct {
 	syncPid  int
 	cb       int
 	cbExe    string
+	cgPath   string // cgroup2 directory the program is cloned into ("" = none)
+	cgFile   *os.File
+	exeFile  *os.File // the probe opened by the caller for fexecve (nil = exec by path)
 }
 
 func genKLaunch(c *vcore.Ctx, heavyFds bool) *klaunch {
@@ -137,6 +140,13 @@ func genKLaunch(c *vcore.Ctx, heavyFds bool) *klaunch {
 	if on(src.Bool(1, 4, "userns") && r.Credential == nil, "ns:user") {
 		r.CloneFlags |= unix.CLONE_NEWUSER
 	}
+	// the child stops itself before loading the filter and waits for the caller's SIGCONT
+	// (not together with the callback: the child stops before it reaches the sync point, Start waits for
+	// the sync message, and nobody who could continue the child knows its pid yet - the option is made for
+	// a tracer; observation outside the listed properties, DESIGN 8.3)
+	// (and not for the first process of a new pid namespace, which cannot stop itself: "not effective if pid
+	// namespace is unshared", as the library says)
+	r.StopBeforeSeccomp = on(r.SyncFunc == nil && r.CloneFlags&unix.CLONE_NEWPID == 0 && src.Bool(1, 5, "stop"), "stop")
 	if r.CloneFlags&unix.CLONE_NEWUTS != 0 {
 		// never request names without a new UTS namespace: that would rename this machine
 		if on(src.Bool(1, 2, "host"), "host") {
@@ -155,9 +165,52 @@ func genKLaunch(c *vcore.Ctx, heavyFds bool) *klaunch {
 	if on(src.Bool(1, 2, "rlimits"), "rlimits") {
 		r.RLimits = []rlimit.RLimit{{Res: syscall.RLIMIT_NOFILE, Rlim: syscall.Rlimit{Cur: 300, Max: 400}}, {Res: syscall.RLIMIT_CORE, Rlim: syscall.Rlimit{}}}
 	}
+	// clone straight into a cgroup (clone3 + CLONE_INTO_CGROUP): a fresh group on the cgroup2 hierarchy
+	if src.Bool(1, 4, "cgroupfd") {
+		dir := "/sys/fs/cgroup/unified/verif-kl-" + uniqueSuffix()
+		if err := os.Mkdir(dir, 0755); err == nil {
+			if f, err := os.Open(dir); err == nil {
+				on(true, "cgroupfd")
+				k.cgPath, k.cgFile = dir, f
+				r.CgroupFd = f.Fd()
+				k.cleanup = append(k.cleanup, func() { f.Close(); removeCgroupDir(dir) })
+			} else {
+				os.Remove(dir)
+			}
+		}
+	}
+	// exec through a descriptor of the caller (fexecve)
+	if src.Bool(1, 4, "fexecve") {
+		if f, err := os.Open(probePath); err == nil {
+			on(true, "fexecve")
+			k.exeFile = f
+			r.ExecFile = f.Fd()
+			k.cleanup = append(k.cleanup, func() { f.Close() })
+		}
+	}
 	k.r = r
 	k.vector = strings.Join(vec, ",")
 	return k
+}
+
+var uniqueN int
+
+// uniqueSuffix makes names unique across shards and pid namespaces (cgroup hierarchies are global).
+func uniqueSuffix() string {
+	uniqueN++
+	var st syscall.Stat_t
+	syscall.Stat("/proc/self/ns/pid", &st)
+	return fmt.Sprintf("%d-%d-%d", st.Ino, time.Now().UnixNano()%1000000007, uniqueN)
+}
+
+// removeCgroupDir removes a group once its last process is gone (the kernel refuses earlier).
+func removeCgroupDir(dir string) {
+	for i := 0; i < 200; i++ {
+		if err := syscall.Rmdir(dir); err == nil || err == syscall.ENOENT {
+			return
+		}
+		time.Sleep(5 * time.Millisecond)
+	}
 }
 
 type klResult struct {
@@ -166,24 +219,64 @@ type klResult struct {
 	lines []string
 	ws    syscall.WaitStatus
 	diag  string
+	held  bool // the probe was inspected from outside while paused after its report
+	// StopBeforeSeccomp: what the stopped child was executing, or that it ended instead of stopping
+	stopExe string
+	early   bool
 }
 
-// run starts the runner with the given probe script and collects report and wait status.
-func (k *klaunch) run(script []string) *klResult {
+// run starts the runner with the given probe script and collects report and wait status. With
+// inspect != nil the probe is told to pause after its report; once the report is complete the
+// harness looks at the live process from outside (inspect), then kills and reaps it.
+func (k *klaunch) run(script []string, lastLine string, inspect func(pid int)) *klResult {
 	w, out, err := kPipe()
 	if err != nil {
 		vcore.Harnessf("pipe: %v", err)
 	}
 	wfd := w.Fd()
 	k.r.Files[k.reportFd] = wfd
+	if inspect != nil {
+		script = append(append([]string{}, script...), "pause")
+	}
 	k.r.Args = append([]string{probePath, "out", fmt.Sprint(k.reportFd)}, script...)
 	res := &klResult{}
-	ok := watchdog(30*time.Second, func() {
+	ok := watchdog(60*time.Second, func() {
 		res.pid, res.err = k.r.Start()
-		if res.err == nil {
-			syscall.Wait4(res.pid, &res.ws, 0, nil)
+		if res.err != nil {
+			return
 		}
+		if k.r.StopBeforeSeccomp {
+			// the caller's part of the option: wait for the stop, look, continue
+			var ws syscall.WaitStatus
+			for {
+				_, err := syscall.Wait4(res.pid, &ws, syscall.WUNTRACED, nil)
+				if err != syscall.EINTR {
+					break
+				}
+			}
+			if ws.Stopped() {
+				res.stopExe, _ = os.Readlink(fmt.Sprintf("/proc/%d/exe", res.pid))
+				syscall.Kill(res.pid, syscall.SIGCONT)
+			} else {
+				res.ws, res.early = ws, true
+				return
+			}
+		}
+		if inspect != nil {
+			for i := 0; i < 4000 && len(out.find(lastLine)) == 0 && pidAlive(res.pid); i++ {
+				time.Sleep(5 * time.Millisecond)
+			}
+			if len(out.find(lastLine)) > 0 {
+				res.held = true
+				inspect(res.pid)
+			}
+			syscall.Kill(res.pid, syscall.SIGKILL)
+		}
+		syscall.Wait4(res.pid, &res.ws, 0, nil)
 	})
+	if res.early {
+		res.diag += " (the child ended instead of stopping itself before the filter)"
+	}
 	w.Close()
 	if !ok {
 		res.err = fmt.Errorf("verif: launch did not return")
@@ -233,11 +326,25 @@ func cKLaunchRun(prop string, wantState, wantFds bool) func(c *vcore.Ctx) *vcore
 		}
 		before := *k.r
 		filesBefore := append([]uintptr(nil), k.r.Files...)
-		res := k.run([]string{"state", "fds", "24", "exit", "7"})
+		// what the harness sees of the live program from outside, while it is paused after its report
+		nsOf := func(pid any) map[string]string {
+			m := map[string]string{}
+			for _, n := range []string{"user", "pid", "mnt", "uts", "ipc", "net", "cgroup"} {
+				m[n], _ = os.Readlink(fmt.Sprintf("/proc/%v/ns/%s", pid, n))
+			}
+			return m
+		}
+		var childNS map[string]string
+		var childCgroup string
+		res := k.run([]string{"state", "fds", "24"}, "fd 23 ", func(pid int) {
+			childNS = nsOf(pid)
+			b, _ := os.ReadFile(fmt.Sprintf("/proc/%d/cgroup", pid))
+			childCgroup = string(b)
+		})
 		if res.err != nil {
 			return vcore.Violate(prop, "launch_refused", "real_kernel", "Start failed on the real kernel: %v (vector %s, files %v)", res.err, k.vector, fdListK(filesBefore))
 		}
-		if !res.ws.Exited() || res.ws.ExitStatus() != 7 || len(field(res.lines, "uid")) == 0 {
+		if !res.held || len(field(res.lines, "uid")) == 0 {
 			return vcore.Violate(prop, "program_did_not_run", "real_kernel", "the probe did not run to its exit (wait status %#x, %d report lines; vector %s) %s", uint32(res.ws), len(res.lines), k.vector, res.diag)
 		}
 		c.Probe("validated_on_real_kernel")
@@ -297,6 +404,40 @@ func cKLaunchRun(prop string, wantState, wantFds bool) func(c *vcore.Ctx) *vcore
 					}
 				}
 			}
+			// new namespaces exactly for the requested clone flags
+			selfNS := nsOf("self")
+			for _, f := range []struct {
+				n string
+				f uintptr
+			}{{"user", unix.CLONE_NEWUSER}, {"pid", unix.CLONE_NEWPID}, {"mnt", unix.CLONE_NEWNS}, {"uts", unix.CLONE_NEWUTS}, {"ipc", unix.CLONE_NEWIPC}, {"net", unix.CLONE_NEWNET}, {"cgroup", unix.CLONE_NEWCGROUP}} {
+				if childNS[f.n] == "" || selfNS[f.n] == "" {
+					continue // this kernel has no such namespace file
+				}
+				isNew, asked := childNS[f.n] != selfNS[f.n], r.CloneFlags&f.f != 0
+				if f.n == "cgroup" && !asked && r.UnshareCgroupAfterSync {
+					continue // the late unshare is best effort by design
+				}
+				if isNew != asked {
+					return vcore.Violate(prop, "namespaces", "real_kernel/"+f.n, "%s namespace of the program is new=%v, requested=%v (vector %s)", f.n, isNew, asked, k.vector)
+				}
+			}
+			c.Probe("namespaces_compared_on_real_kernel")
+			if k.cgPath != "" {
+				want := "0::/" + filepath.Base(k.cgPath)
+				found := false
+				for _, l := range strings.Split(childCgroup, "\n") {
+					if l == want {
+						found = true
+					}
+				}
+				if !found {
+					return vcore.Violate(prop, "cgroup", "real_kernel/clone_into_cgroup", "the program is not in the requested cgroup %s: %q (vector %s)", want, strings.TrimSpace(childCgroup), k.vector)
+				}
+				c.Probe("clone_into_cgroup_checked")
+			}
+			if r.StopBeforeSeccomp && strings.HasSuffix(res.stopExe, filepath.Base(probePath)) {
+				return vcore.Violate(prop, "stop", "real_kernel", "stop-before-seccomp: the child that stopped was already executing the target (%s)", res.stopExe)
+			}
 			if r.SyncFunc != nil {
 				if k.cb != 1 || k.syncPid != res.pid {
 					return vcore.Violate(prop, "callback_pid", "real_kernel", "callback called %d times with pid %d, Start returned %d", k.cb, k.syncPid, res.pid)
@@ -350,6 +491,9 @@ func c07KRun(c *vcore.Ctx) *vcore.Violation {
 	src := c.Src
 	k := genKLaunch(c, false)
 	defer k.done()
+	// with stop-before-seccomp Start returns at the stop, before the later steps can fail: by design
+	// their failure cannot be reported by Start, so the induced failures are launched without it
+	k.r.StopBeforeSeccomp = false
 	fail := src.Pick("failure", "missing_workdir", "missing_executable", "garbage_executable", "nonexec_executable", "closed_descriptor", "callback_error", "rlimit_above_hard", "long_hostname",
 		"bad_mount_source", "invalid_id_map", "unmapped_uid")
 	marker := filepath.Join(c.Dir, fmt.Sprintf("c07-marker-%d", src.Int(1000000, "marker")))
@@ -418,6 +562,14 @@ func c07KRun(c *vcore.Ctx) *vcore.Violation {
 		k.r.CloneFlags |= unix.CLONE_NEWUSER
 		k.r.Credential = &syscall.Credential{Uid: 4242, Gid: 0, NoSetGroups: true}
 		wantLoc = "setuid"
+	}
+	if k.r.ExecFile != 0 && target != probePath {
+		// launch by descriptor: the descriptor must be the failing object too
+		k.r.ExecFile = 0
+		if f, err := os.Open(target); err == nil {
+			k.r.ExecFile = f.Fd()
+			k.cleanup = append(k.cleanup, func() { f.Close() })
+		}
 	}
 	c.Logf("induced failure=%s vector=%s", fail, k.vector)
 	c.Event("fail:" + fail)
